@@ -8,17 +8,21 @@ package main
 //       that existed, and never disturb the store.
 
 import (
+	"context"
 	"encoding/json"
 	"fmt"
 	"math/rand"
 	"sort"
 	"strings"
 	"sync"
+	"sync/atomic"
 	"testing"
 	"time"
 
 	"github.com/anishathalye/porcupine"
 	"github.com/labstack/echo/v4"
+	tmpb "k3l.io/go-eigentrust/pkg/api/pb/trustmatrix"
+	tvpb "k3l.io/go-eigentrust/pkg/api/pb/trustvector"
 )
 
 type stIn struct {
@@ -384,5 +388,143 @@ func TestConcComputeIsolation(t *testing.T) {
 		}
 		_ = echo.New
 		_ = time.Now
+	}
+}
+
+// TestConcGrpcGetAtomic: a Get of a gRPC-stored vector or matrix is an atomic snapshot.  One
+// updater writes timestamp k together with the value k; whatever a concurrent Get streams must have
+// header timestamp == value (or no entry at timestamp 0), also across Flush.
+func TestConcGrpcGetAtomic(t *testing.T) {
+	g := newGrpc()
+	ctx := context.Background()
+	vid, mid := "cv", "cm"
+	if _, err := g.vs.Create(ctx, &tvpb.CreateRequest{Id: vid}); err != nil {
+		t.Fatal(err)
+	}
+	if _, err := g.ms.Create(ctx, &tmpb.CreateRequest{Id: mid}); err != nil {
+		t.Fatal(err)
+	}
+	stop := make(chan struct{})
+	var wg sync.WaitGroup
+	wg.Add(1)
+	go func() {
+		defer wg.Done()
+		for k := uint64(1); ; k++ {
+			select {
+			case <-stop:
+				return
+			default:
+			}
+			if k%50 == 0 {
+				_, _ = g.vs.Flush(ctx, &tvpb.FlushRequest{Id: vid})
+				_, _ = g.ms.Flush(ctx, &tmpb.FlushRequest{Id: mid})
+			}
+			_, _ = g.vs.Update(ctx, &tvpb.UpdateRequest{Header: &tvpb.Header{Id: &vid, TimestampQwords: []uint64{k}},
+				Entries: []*tvpb.Entry{{Trustee: "0", Value: float64(k)}, {Trustee: "3", Value: float64(k)}}})
+			_, _ = g.ms.Update(ctx, &tmpb.UpdateRequest{Header: &tmpb.Header{Id: &mid, TimestampQwords: []uint64{k}},
+				Entries: []*tmpb.Entry{{Truster: "0", Trustee: "1", Value: float64(k)}, {Truster: "2", Trustee: "0", Value: float64(k)}}})
+		}
+	}()
+	var bad atomic.Value
+	var rg sync.WaitGroup
+	for r := 0; r < 4; r++ {
+		rg.Add(1)
+		go func() {
+			defer rg.Done()
+			for i := 0; i < 4000 && bad.Load() == nil; i++ {
+				vs := &gvStream{}
+				if err := g.vs.Get(&tvpb.GetRequest{Id: vid}, vs); err == nil && len(vs.parts) > 0 {
+					ts := vs.parts[0].GetHeader().TimestampQwords
+					var tsv uint64
+					if len(ts) > 0 {
+						tsv = ts[len(ts)-1]
+					}
+					for _, p := range vs.parts[1:] {
+						if v := p.GetEntry().Value; v != float64(tsv) {
+							bad.Store(fmt.Sprintf("vector Get: header timestamp %d with entry value %v", tsv, v))
+						}
+					}
+					if tsv != 0 && len(vs.parts) != 3 {
+						bad.Store(fmt.Sprintf("vector Get: timestamp %d with %d entries", tsv, len(vs.parts)-1))
+					}
+				}
+				ms := &gmStream{}
+				if err := g.ms.Get(&tmpb.GetRequest{Id: mid}, ms); err == nil && len(ms.parts) > 0 {
+					ts := ms.parts[0].GetHeader().TimestampQwords
+					var tsv uint64
+					if len(ts) > 0 {
+						tsv = ts[len(ts)-1]
+					}
+					for _, p := range ms.parts[1:] {
+						if v := p.GetEntry().Value; v != float64(tsv) {
+							bad.Store(fmt.Sprintf("matrix Get: header timestamp %d with entry value %v", tsv, v))
+						}
+					}
+					if tsv != 0 && len(ms.parts) != 3 {
+						bad.Store(fmt.Sprintf("matrix Get: timestamp %d with %d entries", tsv, len(ms.parts)-1))
+					}
+				}
+			}
+		}()
+	}
+	rg.Wait()
+	close(stop)
+	wg.Wait()
+	if b := bad.Load(); b != nil {
+		t.Fatalf("a Get is not an atomic snapshot: %v", b)
+	}
+}
+
+// TestConcStoreGetAtomic: a GET of a stored matrix concurrent with replacing and enlarging merges
+// returns one of the versions the updater produced (size and entries from the same version).
+func TestConcStoreGetAtomic(t *testing.T) {
+	type upd struct{ path, body string }
+	cycle := []upd{
+		{"/basic/v1/local-trust/g", IMat{Size: 2, Es: []Coo{{R: 0, C: 1, V: 1}}}.json()},
+		{"/basic/v1/local-trust/g?merge=true", IMat{Size: 50, Es: []Coo{{R: 49, C: 49, V: 2}, {R: 0, C: 1, V: 3}}}.json()},
+		{"/basic/v1/local-trust/g?merge=true", IMat{Size: 203, Es: []Coo{{R: 202, C: 202, V: 4}, {R: 1, C: 0, V: 5}}}.json()},
+	}
+	ref := newOapiServer()
+	valid := map[string]bool{}
+	for _, u := range cycle {
+		httpDo(ref, "PUT", u.path, u.body)
+		valid[httpDo(ref, "GET", "/basic/v1/local-trust/g", "").Body] = true
+	}
+	e := newOapiServer()
+	httpDo(e, "PUT", cycle[0].path, cycle[0].body)
+	stop := make(chan struct{})
+	var wg sync.WaitGroup
+	wg.Add(1)
+	go func() {
+		defer wg.Done()
+		for k := 0; ; k++ {
+			select {
+			case <-stop:
+				return
+			default:
+			}
+			u := cycle[k%len(cycle)]
+			httpDo(e, "PUT", u.path, u.body)
+		}
+	}()
+	var bad atomic.Value
+	var rg sync.WaitGroup
+	for r := 0; r < 4; r++ {
+		rg.Add(1)
+		go func() {
+			defer rg.Done()
+			for i := 0; i < 3000 && bad.Load() == nil; i++ {
+				g := httpDo(e, "GET", "/basic/v1/local-trust/g", "")
+				if g.Code != 200 || !valid[g.Body] {
+					bad.Store(fmt.Sprintf("%d %s", g.Code, g.Body))
+				}
+			}
+		}()
+	}
+	rg.Wait()
+	close(stop)
+	wg.Wait()
+	if b := bad.Load(); b != nil {
+		t.Fatalf("a GET concurrent with merges returned a body that is none of the stored versions: %v", b)
 	}
 }
